@@ -31,8 +31,8 @@ for _v in ("OMP_NUM_THREADS", "OPENBLAS_NUM_THREADS", "MKL_NUM_THREADS"):
     os.environ.setdefault(_v, "1")
 
 from ..core import Ctx, Report, pmap
-from ..fitkit import (CAP, LAWFUL, SHIPPED, Probe, RecordingLoss, RecordingResidual, build, content_of, evaluate_at,
-                      event, fr, fvec, norm_scenario, seq, term_value)
+from ..fitkit import (CAP, LAWFUL, SHIPPED, Probe, RecordingLoss, RecordingResidual, build, build_joint, content_of,
+                      evaluate_at, event, fr, fvec, norm_joint, norm_scenario, seq, term_value)
 from ..tlc import MachineryError
 
 RULE = ("value case = (grid pair, shipped loss) with a defined value; residual case = (scenario, loss, scaling) with a "
@@ -266,6 +266,9 @@ def _residual_case(scn: dict) -> list[dict]:
     model, kind, kw, p_true, p_cand = build(scn)
     before = content_of(model)
     out = []
+    # "a function of the candidate": the unscaled cases are evaluated AFTER an evaluation at another candidate (the truth,
+    # or a displaced copy of it) in the same call -- the value must not remember where the working model has been
+    other = dict(p_true) if p_true != p_cand else {k: (v * 2.0 if v else 3.0) for k, v in p_true.items()}
     for name in SHIPPED:
         for scl in ("plain", "scaled"):
             e = scn["exp"][name][scl]
@@ -279,7 +282,8 @@ def _residual_case(scn: dict) -> list[dict]:
                 continue
             with np.errstate(all="ignore"):
                 try:
-                    obs = evaluate_at(model, kind, kw, p_cand, name, scl == "scaled")
+                    obs = evaluate_at(model, kind, kw, p_cand, name, scl == "scaled",
+                                      before=other if scl == "plain" else None)
                 except Exception as ex:  # noqa: BLE001
                     out.append({**base, "status": "bad", "expected": {"dp": vdp, "pd": vpd},
                                 "observed": f"{type(ex).__name__}: {ex}"[:300]})
@@ -383,6 +387,98 @@ def residuals(ctx: Ctx, rep: Report, scns: list[dict]) -> None:
     s = pick[len(pick) // 2]
     rep.sample({"kind": "residual", "sc": s["sc"], "data": _floats(s["data"]), "prediction": _floats(s["pred"]),
                 "expected_rmse_scaled": term_value(s["exp"]["rmse"]["scaled"]["dp"])})
+
+
+# ======================================================================================================
+# 4b. joint fits: per-experiment overrides of the shared defaults (FitJoint.tla)
+# ======================================================================================================
+def _joint_case(js: dict) -> list[dict]:
+    import numpy as np
+    from mxlpy import fit
+
+    out = []
+    for scl in ("plain", "scaled"):
+        terms = [e[scl] for e in js["exp"]]
+        vals = [term_value(t) for t in terms]
+        base = {"scaled": scl == "scaled"}
+        if any(v is None for v in vals):
+            out.append({**base, "status": "undefined"})
+            continue
+        exp = math.fsum(vals)
+        routine, to_fit, kwargs, p0 = build_joint(js)
+        before = [content_of(s.model) for s in to_fit]
+        with np.errstate(all="ignore"):
+            try:
+                res = getattr(fit, routine)(to_fit, p0=dict(p0), minimizer=Probe([p0]), max_workers=2,
+                                            standard_scale=scl == "scaled", **kwargs)
+                val = res.value
+                if isinstance(val, Exception):
+                    raise val
+                obs = float(val.loss)
+            except Exception as ex:  # noqa: BLE001
+                out.append({**base, "status": "bad", "expected": exp, "observed": f"{type(ex).__name__}: {ex}"[:300]})
+                continue
+        tol = sum(_tolerance({"data": d, "pred": p}, eff["loss"], scl == "scaled")
+                  for d, p, eff in zip(js["data"], js["pred"], js["eff"]))
+        if close(obs, exp, 1e-6, tol):
+            out.append({**base, "status": "ok"})
+        else:
+            out.append({**base, "status": "bad", "expected": exp, "per_experiment": vals, "observed": obs, "tolerance": tol})
+        after = [content_of(s.model, invalidate=True) for s in to_fit]
+        if before != after:
+            out.append({**base, "status": "bad", "what": "an experiment's model changed (as_deepcopy default)",
+                        "expected": before, "observed": after})
+    return out
+
+
+def slim_joint(js: dict) -> dict:
+    return {"kind": "joint", **{k: js[k] for k in ("exps", "dflt", "jc", "jt", "A", "prot", "times", "x2", "eff", "data",
+                                                     "pred", "exp", "leakshape")}, "shape": js["kind"]}
+
+
+def joint(ctx: Ctx, rep: Report) -> None:
+    res = ctx.tlc("FitJoint.tla", "FitJoint_leaky.cfg", expect_violation=True, workers=4)
+    if res.violated != "OrderFree":
+        raise MachineryError(f"FitJoint_leaky.cfg: the loop-carried default should violate OrderFree, TLC reported {res.violated}")
+    rep.add_tlc(res, "expected counterexample: an override that stays in force for the following experiments makes the "
+                     "settings depend on the order of the experiments")
+    res = ctx.tlc("FitJoint.tla", "FitJoint_three.cfg")
+    rep.add_tlc(res, "joint fits, three experiments, all permutations: the settings of an experiment are its own override or "
+                     "the shared default, wherever it stands (OrderFree); LeakMatters")
+    res = ctx.tlc("FitJoint.tla", "FitJoint_quick.cfg" if ctx.quick else "FitJoint_full.cfg")
+    rep.add_tlc(res, "gen: joint scenarios (two experiments, every combination of overrides / defaults / order) with the exact "
+                     "residual term of every experiment")
+    scns = [norm_joint(p) for p in res.payloads]
+    if len(scns) < 1000:
+        raise MachineryError(f"only {len(scns)} joint scenarios emitted")
+    rnd = random.Random(ctx.seed + 3)
+    by: dict = {}
+    for s in scns:
+        by.setdefault((s["kind"], bool(s["leakshape"])), []).append(s)
+    per = 5 if ctx.quick else 60
+    pick = []
+    for k in sorted(by):
+        pick += by[k] if len(by[k]) <= per else rnd.sample(by[k], per)
+    import multiprocessing as mp
+    from concurrent.futures import ProcessPoolExecutor
+
+    hist = {"ok": 0, "undefined": 0, "bad": 0}
+    with ProcessPoolExecutor(max_workers=6, mp_context=mp.get_context("fork")) as ex:   # joint fits start process pools
+        for js, rs in zip(pick, ex.map(_joint_case, pick)):
+            rep.replayed += 1
+            for r in rs:
+                rep.evaluations += 1
+                hist[r["status"]] += 1
+                if r["status"] == "ok":
+                    rep.distinct.add(("joint", json.dumps([js["kind"], js["exps"], js["dflt"], js["jc"]], sort_keys=True), r["scaled"]))
+                elif r["status"] == "bad":
+                    rep.mismatch({**slim_joint(js), "scaled": r["scaled"]}, {k: v for k, v in r.items() if k != "status"}, None)
+    rep.notes["joint_fit_cases"] = {**hist, "scenarios": len(pick),
+                                    "with_an_override_before_an_experiment_without": sum(1 for s in pick if s["leakshape"])}
+    if hist["ok"] + hist["bad"] < 40:
+        raise MachineryError(f"too few joint cases decided: {hist}")
+    s = next(x for x in pick if x["leakshape"])
+    rep.sample({"kind": "joint", "routine": s["kind"], "experiments": s["exps"], "defaults": s["dflt"], "effective": s["eff"]})
 
 
 # ======================================================================================================
@@ -600,6 +696,8 @@ def run(ctx: Ctx) -> int:
     lap("scenario generation")
     residuals(ctx, rep, scns)
     lap("residual replay")
+    joint(ctx, rep)
+    lap("joint fits")
     traces(ctx, rep, scns)
     lap("recorded fits + trace validation")
     rep.notes["stage_wall_s"] = stages
@@ -624,6 +722,10 @@ def replay(ctx: Ctx, doc: dict) -> int:
             for s, e in by.items():
                 full["exp"][n][s] = e
         rs = _residual_case(full)
+        bad = [r for r in rs if r["status"] == "bad"]
+    elif kind == "joint":
+        js = {**scn, "kind": scn["shape"]}
+        rs = _joint_case(js)
         bad = [r for r in rs if r["status"] == "bad"]
     elif kind == "trace":
         rep = Report(ctx)
